@@ -377,6 +377,18 @@ def client_stage(c):
         # again with the next search space (anything remembered per study name - a cached configuration - is stale then)
         shared = si % 2 == 0
         sid = 'c17_%s_%d_%s' % (bname, c.seed, 'shared' if shared else str(si))
+        # ANOTHER OWNER's study with the same study id, created first, with trials 1..3 of its own (other parameters):
+        # what one owner reads must never come from the other owner's rows
+        def decoy():
+          dss = sl.build_space([])
+          dss.root.add_float_param('decoy', 0.0, 1.0)
+          d = clients.Study.from_study_config(study_config_of(dss), owner='another-owner', study_id=sid)
+          if not list(d.trials()):
+            for k in range(3):
+              d.request(vz.TrialSuggestion(parameters={'decoy': 0.25 * (k + 1)}))
+        dres = _try(decoy)
+        if dres[0] != 'ok':
+          raise core.InfraError('cannot create the decoy study: %s' % (dres[1],))
         made = _try(lambda: clients.Study.from_study_config(study_config_of(ss), owner='o', study_id=sid))
         if made[0] != 'ok':
           # building the space succeeded locally (sl.build_space), so the service must accept it or say why
